@@ -129,7 +129,16 @@ fn sign_and_report(b: &mut Builder, asset: &assets::Asset, alg: &str) -> Result<
     });
     match r {
         Ok(Ok((js, state, codes, res))) => {
-            // mask digests first: the normaliser fingerprints manifests by content
+            // name the active manifest "ACTIVE" (its label is a fresh uuid on every sign) so that paths
+            // stay comparable; mask digests before the normaliser fingerprints the other manifests
+            let probe: Value = serde_json::from_str(&js).unwrap_or(Value::Null);
+            let js = match probe.get("active_manifest").and_then(|a| a.as_str()) {
+                Some(l) => match report::find_uuids(l).first() {
+                    Some((a, b)) => js.replace(&l[*a..*b], "ACTIVE"),
+                    None => js,
+                },
+                None => js,
+            };
             let mut raw: Value = serde_json::from_str(&js).unwrap_or(Value::Null);
             let mut hashes = Vec::new();
             mask_hashes(&mut raw, &mut hashes);
@@ -168,19 +177,35 @@ fn legacy_zip(b: &Builder) -> Result<Vec<u8>, String> {
     Ok(c.into_inner())
 }
 
-fn first_path_class(p: &str) -> String {
-    // "/manifests/M-xxxx/assertions[2]/data/..." -> "manifests/*/assertions/data"
+/// Cause class of a difference: the path with indices / manifest names removed, plus the label of the
+/// assertion it sits in (custom labels generalised).
+fn first_path_class(p: &str, direct: &Value) -> String {
     let head = p.split(": ").next().unwrap_or("");
     let mut parts: Vec<String> = Vec::new();
-    for seg in head.split('/').filter(|s| !s.is_empty()).take(5) {
-        let s = seg.split('[').next().unwrap_or(seg);
-        if s.contains("M-") || s.contains("urn") {
-            parts.push("*".into());
-        } else {
-            parts.push(s.to_string());
+    let mut cur: Option<&Value> = Some(direct);
+    let mut label: Option<String> = None;
+    for seg in head.split('/').filter(|s| !s.is_empty()) {
+        let (name, idx) = match seg.find('[') {
+            Some(i) => (&seg[..i], seg[i + 1..].trim_end_matches(']').parse::<usize>().ok()),
+            None => (seg, None),
+        };
+        cur = cur.and_then(|c| c.get(name));
+        if let Some(i) = idx {
+            cur = cur.and_then(|c| c.get(i));
+        }
+        if name == "assertions" || name == "ingredients" {
+            if let Some(l) = cur.and_then(|c| c.get("label")).and_then(|l| l.as_str()) {
+                label = Some(if l.starts_with("c2pa.") { l.to_string() } else { "custom".to_string() });
+            }
+        }
+        if parts.len() < 6 {
+            parts.push(if name.contains("M-") { "*".into() } else if name.contains("ACTIVE") { "ACTIVE".into() } else { name.to_string() });
         }
     }
-    parts.join("/")
+    match label {
+        Some(l) => format!("{}@{l}", parts.join("/")),
+        None => parts.join("/"),
+    }
 }
 
 fn run_case(c: &Case, assets_v: &[assets::Asset], pool: &IngredientPool) -> Res {
@@ -285,10 +310,10 @@ fn run_case(c: &Case, assets_v: &[assets::Asset], pool: &IngredientPool) -> Res 
                 unjudged.push(format!("both-sides-fail:{}", d.split(':').take(2).collect::<Vec<_>>().join(":")));
                 return done(format!("{tag}|both-fail"), None, unjudged, counts);
             }
-            return done(format!("{tag}|fail-differs"), Some((format!("{}|k{}|outcome:{}≠{}", c.cfg.kind, c.cfg.k, d.split(':').next().unwrap_or(""), a.split(':').next().unwrap_or("")), format!("direct: {d}; restored: {a}"))), unjudged, counts);
+            return done(format!("{tag}|fail-differs"), Some((format!("{}|outcome:{}-vs-{}", c.cfg.kind, d.split(':').next().unwrap_or(""), a.split(':').next().unwrap_or("")), format!("direct: {d}; restored: {a}"))), unjudged, counts);
         }
-        (Ok(_), Err(a)) => return done(format!("{tag}|restored-fails"), Some((format!("{}|k{}|restored-{}", c.cfg.kind, c.cfg.k, a.split(':').take(2).collect::<Vec<_>>().join(":")), format!("direct sign succeeds, restored builder fails: {a}"))), unjudged, counts),
-        (Err(d), Ok(_)) => return done(format!("{tag}|direct-fails"), Some((format!("{}|k{}|only-direct-{}", c.cfg.kind, c.cfg.k, d.split(':').take(2).collect::<Vec<_>>().join(":")), format!("restored builder signs but the original fails: {d}"))), unjudged, counts),
+        (Ok(_), Err(a)) => return done(format!("{tag}|restored-fails"), Some((format!("{}|restored-{}", c.cfg.kind, a.split(':').take(2).collect::<Vec<_>>().join(":")), format!("direct sign succeeds, restored builder fails: {a}"))), unjudged, counts),
+        (Err(d), Ok(_)) => return done(format!("{tag}|direct-fails"), Some((format!("{}|only-direct-{}", c.cfg.kind, d.split(':').take(2).collect::<Vec<_>>().join(":")), format!("restored builder signs but the original fails: {d}"))), unjudged, counts),
     };
     let masked_diff = direct.hashes.iter().zip(after.hashes.iter()).filter(|(x, y)| x != y).count() + direct.hashes.len().abs_diff(after.hashes.len());
     *counts.entry("hashed_uri_digests_masked".into()).or_insert(0) += direct.hashes.len() as u64;
@@ -301,11 +326,11 @@ fn run_case(c: &Case, assets_v: &[assets::Asset], pool: &IngredientPool) -> Res 
     if direct.report != after.report {
         let d = report::diff_paths(&direct.report, &after.report, 8);
         let first = d.first().cloned().unwrap_or_default();
-        viol = Some((format!("{}|k{}|{}", c.cfg.kind, c.cfg.k, first_path_class(&first)), format!("reports differ (first = direct, second = restored): {:?}", d)));
+        viol = Some((format!("{}|{}", c.cfg.kind, first_path_class(&first, &direct.report)), format!("k={} reports differ (first = direct, second = restored): {:?}", c.cfg.k, d)));
     } else if direct.codes != after.codes || direct.state != after.state {
-        viol = Some((format!("{}|k{}|validation-codes", c.cfg.kind, c.cfg.k), format!("state {} vs {}; codes only in direct {:?}; only in restored {:?}", direct.state, after.state, direct.codes.iter().filter(|x| !after.codes.contains(x)).collect::<Vec<_>>(), after.codes.iter().filter(|x| !direct.codes.contains(x)).collect::<Vec<_>>())));
+        viol = Some((format!("{}|validation-codes", c.cfg.kind), format!("state {} vs {}; codes only in direct {:?}; only in restored {:?}", direct.state, after.state, direct.codes.iter().filter(|x| !after.codes.contains(x)).collect::<Vec<_>>(), after.codes.iter().filter(|x| !direct.codes.contains(x)).collect::<Vec<_>>())));
     } else if direct.resources != after.resources {
-        viol = Some((format!("{}|k{}|resources", c.cfg.kind, c.cfg.k), format!("resources differ: direct {:?} restored {:?}", direct.resources, after.resources)));
+        viol = Some((format!("{}|resources", c.cfg.kind), format!("resources differ: direct {:?} restored {:?}", direct.resources, after.resources)));
     }
     let outcome = if viol.is_some() { "differs" } else { "equal" };
     done(format!("{tag}|{}|{outcome}", direct.state), viol, unjudged, counts)
